@@ -168,6 +168,20 @@ def one_case(ctx, rng, idx, probe=False):
                     kw['outputFormat'] = f_
             steps.append(DF.set_type(DF.helpers.resource_matcher.re.escape(n) if False else __import__('re').escape(n),
                                      type=t, resources='res_%d' % (i + 1), **kw))
+    # rows are dicts: the order of their keys need not be the order of the schema fields
+    key_order = rng.choice(['schema', 'schema', 'reversed', 'shuffled'])
+    if key_order != 'schema':
+        salt = rng.randrange(10 ** 6)
+
+        def reorder(rows):
+            for r in rows:
+                ks = list(r)
+                if key_order == 'reversed':
+                    ks.reverse()
+                else:
+                    __import__('random').Random(salt).shuffle(ks)
+                yield {k: r[k] for k in ks}
+        steps.append(reorder)
     kw = dict(format=fmt, add_filehash_to_path=filehash)
     if tfp:
         kw['temporal_format_property'] = 'outputFormat'
@@ -177,6 +191,7 @@ def one_case(ctx, rng, idx, probe=False):
         os.makedirs(base, exist_ok=True)
         steps.append(DF.dump_to_zip(os.path.join(base, 'o.zip'), **kw))
     case = {'format': fmt, 'target': target, 'add_filehash_to_path': filehash, 'temporal_format_property': tfp,
+            'row_key_order': key_order,
             'resources': [{'fields': f, 'rows': canon._plain(r)} for f, r in resources], 'probe': probe}
     try:
         with quiet():
